@@ -23,7 +23,8 @@ clause → theorem
 * escape-normalised key; borrowed fast path not observable .. `canonical_key_fast_path`
 * malformed ⇒ InvalidPointer ⇒ MethodNotFound, no mutation ... `malformed_is_not_found`, `malformed_never_mutates`, `invalid_pointer_code`
 * write then read returns the value ......................... `read_after_write`
-* … and changes nothing at unrelated pointers ............... `write_frame`
+* … and changes nothing at unrelated pointers ............... `write_frame`, `write_frame_strong`
+* registrations and merges answer as the document would ...... `registration_reads_back`, `malformed_registration_rejected`
 * a root write merges the object's keys ..................... `root_write_merges`, `root_write_keeps_other_keys`, `root_never_callable`
 * an empty body never mutates ............................... `empty_body_never_mutates`
 * callable invoked exactly once, with the body, only at its key `call_exactly_once`
@@ -192,6 +193,75 @@ theorem write_frame (r : Bool) (reg reg' : Reg) (p q : Ptr) (v w : J)
         | error e => rfl
         | ok key => simp only [hq, hfr]
       · simp only [Reg.readValue, hq, hfr]
+
+/-- Frame at full strength: where the two pointers part the tokens only have to differ; they must not
+be the same array index only if the node at which they part IS an array (under an object `1` and `01`
+are different keys). -/
+theorem write_frame_strong (r : Bool) (reg reg' : Reg) (p q : Ptr) (v w : J)
+    (pre : List Tok) (t u : Tok) (ps qs : List Tok)
+    (hnc : reg.callableAt p = none)
+    (hp : parsePointer p = .ok (pre ++ t :: ps)) (hq : parsePointer q = .ok (pre ++ u :: qs))
+    (hne : t ≠ u)
+    (harr : ∀ a, resolveRef reg.root pre = .ok (.arr a) → ¬ ∃ i, parseUsize t = some i ∧ parseUsize u = some i)
+    (h : reg.dispatch r p (some v) = (reg', .ok w)) :
+    (reg'.dispatch r q none).2 = (reg.dispatch r q none).2 ∧ reg'.readValue q = reg.readValue q := by
+  rw [dispatch_some_of_not_callable r reg p v hnc] at h
+  have hfl := writeAt_log reg p v
+  rw [h] at hfl
+  unfold Reg.writeAt at h
+  rw [hp] at h
+  have hne' : pre ++ t :: ps ≠ [] := by simp
+  match hsegs : pre ++ t :: ps, hne', h with
+  | t0 :: ts0, _, h =>
+    simp only at h
+    cases hs : setPointer reg.root (t0 :: ts0) v with
+    | error e => simp [hs] at h
+    | ok root' =>
+      simp [hs] at h
+      obtain ⟨hreg, _⟩ := h
+      subst hreg
+      rw [← hsegs] at hs
+      have hfr := resolve_setPointer_frame' pre t u ps qs reg.root v root' hne harr hs
+      refine ⟨?_, ?_⟩
+      · simp only [Reg.dispatch, Reg.dispatchRead]
+        cases hk : canonicalKey q with
+        | error e => rfl
+        | ok key => simp only [hq, hfr]
+      · simp only [Reg.readValue, hq, hfr]
+
+/-- `register_value` at a non-root path: whatever was there, the value is read back at that path
+(missing or non-object ancestors having been made objects); `merge_at` at a non-root path succeeds only
+on an existing object, whose fields it extends (`root_write_keeps_other_keys` applies to `omerge`), and a
+failed merge changes nothing; malformed registration paths are refused without any change. -/
+theorem registration_reads_back (reg : Reg) (path : Ptr) (segs : List Tok)
+    (hs : parseRegistrationPath path = .ok segs) (hne : segs ≠ []) :
+    (∀ v p, parsePointer p = .ok segs →
+      (reg.registerValue path v).2 = unitOk ∧ (reg.registerValue path v).1.readValue p = .ok v) ∧
+    (∀ o, (∃ old, resolveRef reg.root segs = .ok (.obj old) ∧ (reg.mergeAt path o).2 = unitOk ∧
+            resolveRef (reg.mergeAt path o).1.root segs = .ok (.obj (omerge o old))) ∨
+          (∃ e, reg.mergeAt path o = (reg, .error e))) := by
+  match segs, hne with
+  | t :: ts, _ =>
+    constructor
+    · intro v p hp
+      simp only [Reg.registerValue, hs, Reg.readValue, hp]
+      exact ⟨trivial, resolve_regInsert reg.root (t :: ts) v (by simp)⟩
+    · intro o
+      simp only [Reg.mergeAt, hs]
+      cases hm : mergeAtPtr reg.root (t :: ts) o with
+      | error e => exact .inr ⟨e, rfl⟩
+      | ok root' =>
+        obtain ⟨old, h1, h2⟩ := resolve_mergeAtPtr reg.root root' (t :: ts) o hm
+        exact .inl ⟨old, h1, rfl, h2⟩
+
+theorem malformed_registration_rejected (reg : Reg) (path : Ptr) (e : RErr)
+    (h : parseRegistrationPath path = .error e) (v : J) (f : Fn) (o : Obj) :
+    reg.registerValue path v = (reg, .error e) ∧ reg.registerFunction path f = (reg, .error e) ∧
+    reg.mergeAt path o = (reg, .error e) := by
+  simp [Reg.registerValue, Reg.registerFunction, Reg.mergeAt, h]
+
+example : (parseRegistrationPath ['a', '~', '2']).toOption = none ∧
+    (parseRegistrationPath ['a', '/', 'b']).toOption = some [['a'], ['b']] := by decide
 
 example : ¬ sameSlot ['a'] ['b'] ∧ ¬ sameSlot ['1'] ['2'] ∧
     sameSlot ['0', '1'] ['+', '1'] := by
